@@ -62,6 +62,10 @@ type ChunkPlan struct {
 	Size  int    `json:"size,omitempty"`
 	Seed  uint64 `json:"seed,omitempty"`
 	Block int    `json:"block,omitempty"` // straddle: sample size
+	// stall plan: each empty read takes StallSleepMs (a non-blocking device polled while its buffer stays
+	// empty for seconds); StallOnce: only the first stall happens
+	StallSleepMs int  `json:"stall_sleep_ms,omitempty"`
+	StallOnce    bool `json:"stall_once,omitempty"`
 	// EOFWithLast: the Read that hands out the final bytes of the stream returns io.EOF together with
 	// them (allowed by io.Reader; many readers do this)
 	EOFWithLast bool `json:"eof_with_last,omitempty"`
@@ -237,6 +241,9 @@ func (r *Reader) readLocked(p []byte) (int, error) {
 	if r.chunk.Kind == "stall" {
 		if r.stall > 0 {
 			r.stall--
+			if r.chunk.StallSleepMs > 0 {
+				time.Sleep(time.Duration(r.chunk.StallSleepMs) * time.Millisecond)
+			}
 			return 0, nil
 		}
 		r.deliv++
@@ -244,7 +251,7 @@ func (r *Reader) readLocked(p []byte) (int, error) {
 		if blk <= 0 {
 			blk = 1
 		}
-		if r.deliv%blk == 0 {
+		if r.deliv%blk == 0 && !(r.chunk.StallOnce && r.deliv > blk) {
 			r.stall = r.chunk.Size
 		}
 	}
